@@ -39,7 +39,7 @@ PROFILES = {
 }
 
 KNOWN_FILE = os.path.join(HERE, "known_findings.json")
-REPLAY_DIR = os.path.join(HERE, "replays")
+REPLAY_DIR = os.path.join(os.environ.get("VERIF_OUT") or HERE, "replays")
 
 
 def load_known(prop):
